@@ -35,12 +35,47 @@ def takeActions : Nat → List String → Option (List (Nat × List Key) × List
     | _, _ => none
   | _ + 1, [] => none
 
+structure TxDesc where
+  size : Nat
+  authCU : Nat
+  acts : List (Nat × List Key)
+  sponsorKeys : List Key
+
+/-- `<size> <authCU> <nActions> (<actionCU> <nKeys> <key>*)* <nSponsorKeys> <key>*` -/
+def takeTx : List String → Option (TxDesc × List String)
+  | size :: auth :: nA :: rest =>
+    match parseU64 size, parseU64 auth, nA.toNat? with
+    | some size, some auth, some nA =>
+      match takeActions nA rest with
+      | some (acts, rest') =>
+        match takeKeys rest' with
+        | some (sk, rest'') => some ({ size := size, authCU := auth, acts := acts, sponsorKeys := sk }, rest'')
+        | none => none
+      | none => none
+    | _, _, _ => none
+  | _ => none
+
+def takeTxs : Nat → List String → Option (List TxDesc × List String)
+  | 0, rest => some ([], rest)
+  | n + 1, rest =>
+    match takeTx rest with
+    | some (t, rest') =>
+      match takeTxs n rest' with
+      | some (ts, rest'') => some (t :: ts, rest'')
+      | none => none
+    | none => none
+
 def showState (r : Raw) : String := csv (unitsConsumed r) ++ " " ++ csv (unitPrices r)
 
 /--
 * `units <size> <base> <authCU> <keyRead> <valRead> <keyAlloc> <valAlloc> <keyWrite> <valWrite>
    <nActions> (<actionCU> <nKeys> <key hex>*)* <nSponsorKeys> <key hex>*`
    → `ok <size,compute,reads,allocates,writes>` | `overflow` | `badkey`
+* `blk exec|build <max×5> <target×5> <base keyRead valRead keyAlloc valAlloc keyWrite valWrite> <nTx>
+   (<size> <authCU> <nActions> (<actionCU> <nKeys> <key>*)* <nSponsorKeys> <key>*)*`
+   → exec: `ok <consumed csv>` | `err-units <dim>` | `err-overflow` | `err-badkey` (what
+   `Processor.Execute` does with the block on a manager fresh from `ComputeNext`);
+   build: `build-done` (oracle-only line)
 * `reset <consumed×5> <price×5>` → `ok` (fresh manager with these values stored)
 * `consume <units×5> <limit×5>` → `<true|false> <dimension> <consumed csv> <prices csv>`
 -/
@@ -59,6 +94,28 @@ def step (st : Raw) (ws : List String) : Raw × String :=
           | .ok d => (st, "ok " ++ csv d)
           | .error .overflow => (st, "overflow")
           | .error .badKey => (st, "badkey")
+        | _ => (st, "bad-op")
+      | none => (st, "bad-op")
+    | _, _ => (st, "bad-op")
+  | "blk" :: mode :: args =>
+    -- <max×5> <target×5> <base keyRead valRead keyAlloc valAlloc keyWrite valWrite> <nTx> <tx>*
+    match allSome ((args.take 17).map parseU64), (args.drop 17) with
+    | some [m0, m1, m2, m3, m4, _, _, _, _, _, base, kr, vr, ka, va, kw, vw], nT :: rest =>
+      match nT.toNat? with
+      | some nT =>
+        match takeTxs nT rest with
+        | some (txs, []) =>
+          if mode == "build" then (st, "build-done")
+          else if mode == "exec" then
+            let rules : UnitRules := { baseCompute := base, keyRead := kr, valRead := vr, keyAlloc := ka,
+                                       valAlloc := va, keyWrite := kw, valWrite := vw }
+            let us := txs.map fun t => units t.size rules (t.acts.map (·.1)) t.authCU (t.acts.map (·.2)) t.sponsorKeys
+            match processTxs [m0, m1, m2, m3, m4] emptyRaw us with
+            | .ok r => (st, "ok " ++ csv (unitsConsumed r))
+            | .error (.tooLarge i) => (st, "err-units " ++ toString i)
+            | .error (.units .overflow) => (st, "err-overflow")
+            | .error (.units .badKey) => (st, "err-badkey")
+          else (st, "bad-op")
         | _ => (st, "bad-op")
       | none => (st, "bad-op")
     | _, _ => (st, "bad-op")
